@@ -212,26 +212,38 @@ def oracle(aug, impl):
             if not cand:
                 return "an emitted vertex does not lie on the input path"
             ss.append(cand)
-        # choose a non-decreasing assignment, allowing one wrap for closed paths
-        seq = []
-        last = None
-        wrapped = False
-        for cand in ss:
-            opts = sorted(cand)
-            pick = None
-            for c in opts:
-                if last is None or c >= last - tol:
-                    pick = c
-                    break
-            if pick is None:
-                if closed and not wrapped:
-                    wrapped = True
-                    pick = opts[0]
-                    seq.append("wrap")
-                else:
-                    return "the vertices of a dash piece are not in path order"
-            seq.append(pick)
-            last = pick
+        # choose a non-decreasing assignment, allowing one wrap for closed paths.  A point next to the vertex where a
+        # closed subpath starts and ends has two arc-length readings (near 0 and near L): try every reading of the
+        # piece's first point and keep the assignment that covers the shortest stretch of the path
+        def assign(first):
+            seq, last, wrapped = [], None, False
+            for idx, cand in enumerate(ss):
+                opts = [first] if idx == 0 else sorted(cand)
+                pick = None
+                for c in opts:
+                    if last is None or c >= last - tol:
+                        pick = c
+                        break
+                if pick is None:
+                    if closed and not wrapped:
+                        wrapped = True
+                        pick = opts[0]
+                        seq.append("wrap")
+                    else:
+                        return None
+                seq.append(pick)
+                last = pick
+            return seq
+        def covered(seq):
+            if "wrap" in seq:
+                k = seq.index("wrap")
+                return (L - seq[0] if k > 0 else 0.0) + (seq[-1] if k + 1 < len(seq) else 0.0)
+            a, b = seq[0], seq[-1]
+            return (L - a) + b if (closed and b < a) else b - a
+        cands = [sq for sq in (assign(f0) for f0 in sorted(ss[0])) if sq is not None]
+        if not cands:
+            return "the vertices of a dash piece are not in path order"
+        seq = min(cands, key=covered)
         if "wrap" in seq:
             k = seq.index("wrap")
             a1 = [v for v in seq[:k]]
